@@ -12,7 +12,7 @@ Here is a semantic property the library is supposed to satisfy:
   Title: {p['title']}
   Statement: {p['statement']}
 
-Task: produce {n} DIFFERENT, independent, realistic changes to the library's non-test source code, each of which BREAKS this property while (a) the library still compiles (go build ./... && go vet is not required) and (b) the ENTIRE existing test suite still passes unchanged (go test -vet=off -count=1 ./... in the worktree; ignore only the two known-flaky tests Example_after and TestFunc_Debounce). The change should look like a plausible bug a maintainer could introduce (an off-by-one, a wrong comparison, a dropped update, a wrong branch, a reordered statement, a refactoring slip, two sites that each look fine alone, ...), NOT an obvious sabotage, and it should need something specific to manifest (an unusual input, a particular multi-step sequence of operations, a particular interleaving, a boundary value) rather than being exposed by ordinary use at once. Do not edit test files, go.mod, or comments only. Keep each change small (a few lines). Each change must be made relative to the pristine worktree (not stacked on each other).
+Task: produce {n} DIFFERENT, independent, realistic changes to the library's non-test source code, each of which BREAKS this property while (a) the library still compiles (go build ./... && go vet is not required) and (b) the ENTIRE existing test suite still passes unchanged (go test -vet=off -count=1 $(go list ./... | grep -v /out/) in the worktree; ignore only the known-flaky tests Example_after, TestFunc_Debounce and TestBSTree_Concurrency). The change should look like a plausible bug a maintainer could introduce (an off-by-one, a wrong comparison, a dropped update, a wrong branch, a reordered statement, a refactoring slip, two sites that each look fine alone, ...), NOT an obvious sabotage, and it should need something specific to manifest (an unusual input, a particular multi-step sequence of operations, a particular interleaving, a boundary value) rather than being exposed by ordinary use at once. Do not edit test files, go.mod, or comments only. Keep each change small (a few lines). Each change must be made relative to the pristine worktree (not stacked on each other).
 
 For each change k (k = 1..{n}) write, in {wt}/out/k/ :
   - patch.diff : the change as produced by `git diff` in the worktree (paths relative to the repo root, applies with `git apply` to the pristine tree)
